@@ -78,17 +78,18 @@ RECURSIVE SumSizes(_)
 SumSizes(S) == IF S = {} THEN PZero
                ELSE LET x == CHOOSE x \in S : TRUE IN PAdd(x.size, SumSizes(S \ {x}))
 
-(* Regular files reachable beneath directory d, following symlinks          *)
-(* (bounded depth; a link to a directory is descended into).                *)
+(* Regular files reachable beneath directory d, following symlinks (a link  *)
+(* to a directory is descended into) - except into a directory the descent  *)
+(* is already inside of (a link to an ancestor): that one contributes       *)
+(* nothing, so the sum is finite.  anc = the directories entered so far.    *)
 RECURSIVE FilesBeneath(_, _, _)
-FilesBeneath(fsys, d, fuel) ==
+FilesBeneath(fsys, d, anc) ==
   LET kids == { c \in Children(fsys, d) : Resolve(fsys, c.p) # NoPath }
       res(c) == Resolve(fsys, c.p)
   IN { [via |-> c.p, size |-> Node(fsys, res(c)).size] : c \in { c \in kids : Node(fsys, res(c)).kind = "file" } }
-     \cup (IF fuel = 0 THEN {}
-           ELSE UNION { { [via |-> c.p \o f.via, size |-> f.size] : f \in FilesBeneath(fsys, res(c), fuel - 1) }
-                        : c \in { c \in kids : Node(fsys, res(c)).kind = "dir" } })
-DirSize(fsys, d) == SumSizes(FilesBeneath(fsys, d, 64))
+     \cup UNION { { [via |-> c.p \o f.via, size |-> f.size] : f \in FilesBeneath(fsys, res(c), anc \cup {d}) }
+                  : c \in { c \in kids : Node(fsys, res(c)).kind = "dir" /\ res(c) \notin anc \cup {d} } }
+DirSize(fsys, d) == SumSizes(FilesBeneath(fsys, d, {}))
 
 (***************************************************************************)
 (* Connection state                                                        *)
